@@ -692,12 +692,13 @@ def run(ctx, pid):
             judge(ctx, pid, "agent" if name == "agent" else "flooder", insts[name], plans[name]["paths"], recs,
                   m["rel"][name], stats, proj_agent if name == "agent" else proj, cex, name)
     # replicated paths (a nondeterministic step inside): lost if every replica took another branch
-    lost = 0
+    lost = {True: 0, False: 0}
     for (n, grp), cut in stats["cut"].items():
-        total = len([p for p in plans.get(n, {"paths": []})["paths"] if grp is not None and p.get("grp") == grp])
-        if total and len(cut) >= total:
-            lost += 1
-    stats["nondet_lost"] = lost
+        group = [p for p in plans.get(n, {"paths": []})["paths"] if grp is not None and p.get("grp") == grp]
+        if group and len(cut) >= len(group):
+            lost[bool(group[0]["init"]["key"])] += 1
+    stats["nondet_lost"] = lost[True]            # signed mode (the claimed part)
+    stats["nondet_lost_unsigned"] = lost[False]  # unsigned mode: nothing is claimed there
     del stats["cut"]
     if out["trace"].get("finding"):
         ctx.finding(*out["trace"]["finding"])
@@ -737,6 +738,10 @@ def check(ctx, pid):
         ],
         states=states, transitions=edges, traces_validated_against_impl=npaths, exhaustive=(stats["nondet_lost"] == 0),
         paths_lost_to_nondeterministic_eviction=stats["nondet_lost"],
+        unsigned_mode_paths_lost_to_nondeterministic_eviction=stats["nondet_lost_unsigned"],
+        exhaustive_note="exhaustive refers to signed mode (the claimed part): every transition of the bounded relation was "
+                        "executed on the real code. In unsigned mode the size limit evicts random entries (map order); "
+                        "paths behind such a step are tried 3 times and counted as lost when every try took another branch",
         replayed_steps=steps, replayed_paths={n: len(p["paths"]) for n, p in plans.items()},
         model={n: {"generated": m["ideal"][n].generated, "distinct": m["ideal"][n].distinct, "edges": plans[n]["edges"],
                    "nodes": plans[n]["nodes"], "nondeterministic_steps": plans[n]["nondet"]} for n in insts},
